@@ -2,12 +2,15 @@ package props
 
 import (
 	"fmt"
+
+	cerrors "github.com/pip-services3-gox/pip-services3-commons-gox/errors"
 	"strings"
 	"testing"
 
 	"github.com/pip-services3-gox/pip-services3-expressions-gox/calculator"
 	"github.com/pip-services3-gox/pip-services3-expressions-gox/calculator/functions"
 	cparsers "github.com/pip-services3-gox/pip-services3-expressions-gox/calculator/parsers"
+	"github.com/pip-services3-gox/pip-services3-expressions-gox/calculator/variables"
 	"github.com/pip-services3-gox/pip-services3-expressions-gox/csv"
 	rio "github.com/pip-services3-gox/pip-services3-expressions-gox/io"
 	"github.com/pip-services3-gox/pip-services3-expressions-gox/mustache"
@@ -37,8 +40,13 @@ func userFunctions(j int) functions.IFunctionCollection {
 	fc.Add(functions.NewDelegatedFunction("Gx", func(p []*variants.Variant, o variants.IVariantOperations) (*variants.Variant, error) {
 		return variants.VariantFromArray(append([]*variants.Variant{variants.VariantFromInteger(j)}, p...)), nil
 	}))
+	fc.Add(functions.NewDelegatedFunction("Ex", func(p []*variants.Variant, o variants.IVariantOperations) (*variants.Variant, error) {
+		return nil, sentinelError // one error object owned by the caller, returned by every failing call
+	}))
 	return fc
 }
+
+var sentinelError = cerrors.NewBadRequestError("", "USER_FAILURE", "the user function failed")
 
 type c05Case struct {
 	Kind  string    `json:"kind"` // generic expression csv mustache | exprparser calculator mustacheparser template
@@ -59,6 +67,7 @@ type c05Instance struct {
 	calc *calculator.ExpressionCalculator
 	mp   *mparsers.MustacheParser
 	tmpl *mustache.MustacheTemplate
+	vars *variables.VariableCollection
 	opts int
 }
 
@@ -148,6 +157,20 @@ func (in *c05Instance) run(st c05Step) (obs string) {
 				in.tok.HasNextToken() // the iteration is abandoned with a peeked, unfetched token pending
 			}
 			obs = tksString(toks)
+			if st.Abort < 0 {
+				// the same scanner object, rewound and handed to the tokenizer again, must give the same tokens
+				sc := rio.NewStringScanner(st.Input)
+				first := in.tok.TokenizeStream(sc)
+				sc.Reset()
+				second := in.tok.TokenizeStream(sc)
+				same := len(first) == len(second)
+				for i := 0; same && i < len(first); i++ {
+					same = first[i].Type() == second[i].Type() && first[i].Value() == second[i].Value() && first[i].Line() == second[i].Line() && first[i].Column() == second[i].Column()
+				}
+				if !same {
+					obs += fmt.Sprintf(" | RESCAN-DIFFERS: second pass over the rewound scanner gives %d tokens", len(second))
+				}
+			}
 		case "exprparser":
 			err := in.ep.ParseString(st.Input)
 			obs = errRepr(err)
@@ -159,7 +182,10 @@ func (in *c05Instance) run(st c05Step) (obs string) {
 			obs = errRepr(err)
 			if err == nil {
 				obs += " | " + exprTokensRepr(in.calc.ResultTokens())
-				v, e := in.calc.EvaluateUsingVariablesAndFunctions(makeVars(c05Vars), userFunctions(st.Fn))
+				if in.vars == nil {
+					in.vars = makeVars(c05Vars) // one collection per instance: values live on between feeds
+				}
+				v, e := in.calc.EvaluateUsingVariablesAndFunctions(in.vars, userFunctions(st.Fn))
 				obs += " | " + resultRepr(v, e)
 				// automatic variables are Null in a fresh and in a reused calculator alike
 				v, e = in.calc.Evaluate()
@@ -191,6 +217,9 @@ func checkC05(c c05Case) *evid.Fail {
 	for i, st := range c.Steps {
 		got := reused.run(st)
 		want := newC05Instance(c.Kind, c.Opts).run(st)
+		if strings.Contains(want, "RESCAN-DIFFERS") {
+			return evid.F("rescan-differs:"+c.Kind, "%s instance, input %q: %s", c.Kind, st.Input, want)
+		}
 		if got != want {
 			var hist []string
 			for _, p := range c.Steps[:i] {
@@ -223,6 +252,7 @@ var c05Pool = []string{
 	"a", "abc", "A1_b", "é", "中文", "1", "12.5", ".5", "-3", "1e5", "2.5E-3", "'s'", "'a''b'", "\"q\"", "'é'", "/* c */ 1", "# c\n1", "x // y",
 	" ", " \t\n ", "a b", "a\nb\r\nc", "a+b*2", "(a+b)*x", "d[1]", "Min(a,b,x)", "a IS NOT NULL", "x NOT IN d", "NOT f", "a LIKE c", "-a", "c+c",
 	"名，b", "，", "a，b‖c;d", "«x，y»，z", "名", "a ≠ b ≤≥ c → d", "≤", "x　y", "日本語 テスト",
+	"Round(y) + Floor(y)", "y * 2", "Ceil(y) - y", "Abs(y) + Trunc(y)", "Hello, {{ name }}!", "text only",
 	"c = 'x'", "c = 'X'", "'abc' + c", "'ABC' + c", "{{Name}} x", "{{name}} X", "Fx() + a", "Gx(b)", "Gx(Fx(), c)", "v1 + v2 * total", "Total + rate", "\"qty[1]\" + \"qty{1}\"",
 	"'abc", "\"abc", "/* x", "{{a", "{{#a}}x", "{{/a}}", "a +", "(a", "a)", "a[1", "f(", "1 2", "a,,b", ",", "\r\n", "\n\r", "\"x\",\"y\"\r\nz", "a;b", "😀", "a 😀 b", "{{ 😀 }}", "",
 }
